@@ -1,6 +1,6 @@
 (* YangLibP.v - proofs about YangLib.v: what the description tells, and the round trip
    rebuild (describe s) src c0 = Ok s' with the same module records as s (as a set), under imports_pinned *)
-From LY Require Import Base HashFn ModHash YangLib.
+From LY Require Import Base HashFn ModHash ModHashP YangLib.
 From Coq Require Import ZifyBool ZifyNat ZifyN.
 Local Open Scope N_scope.
 
@@ -1595,3 +1595,176 @@ Qed.
 
 Lemma d_rebuild : rebuild (describe [] d_s) d_src [] = Ok d_s /\ settle d_s = d_s.
 Proof. split; vm_compute; reflexivity. Qed.
+
+(* ------------------------------------------------------------------------------------------------ *)
+(* the change counter across lys_set_implemented                                                     *)
+(* ------------------------------------------------------------------------------------------------ *)
+Definition newf (fs : fspec) (f : feat) : feat :=
+  match fs with
+  | F_keep => f
+  | F_all => mkfeat (f_name f) true
+  | F_list names => mkfeat (f_name f) (existsb (beq_bytes (f_name f)) names)
+  end.
+
+Lemma apply_fspec_map h i fs :
+  apply_fspec h i fs = mkhmod (h_name h) (h_rev h) i (map (newf fs) (h_feats h)) (map (map (newf fs)) (h_subs h)).
+Proof.
+  destruct fs; cbn [apply_fspec newf]; unfold set_features, set_feats, all_feats.
+  - rewrite map_id. f_equal. symmetry. rewrite <- (map_id (h_subs h)) at 2. apply map_ext. intros l. apply map_id.
+  - reflexivity.
+  - reflexivity.
+Qed.
+
+Lemma newf_fix fs f : feat_change true fs f = false -> newf fs f = f.
+Proof.
+  destruct f as [n e]. destruct fs as [| |names]; cbn [feat_change newf f_name f_en]; intros H; [reflexivity| |].
+  - destruct e; [reflexivity|discriminate].
+  - destruct (existsb (beq_bytes n) names); destruct e; try reflexivity; discriminate.
+Qed.
+
+Lemma newf_moves fs f : feat_change true fs f = true -> newf fs f <> f.
+Proof.
+  destruct f as [n e]. destruct fs as [| |names]; cbn [feat_change newf f_name f_en]; intros H E; [discriminate| |].
+  - destruct e; [discriminate|]. discriminate.
+  - destruct (existsb (beq_bytes n) names); destruct e; try discriminate.
+Qed.
+
+Lemma map_fix_all {A} (f : A -> A) l : (forall x, In x l -> f x = x) -> map f l = l.
+Proof. intros H. rewrite <- (map_id l) at 2. apply map_ext_in. exact H. Qed.
+
+Lemma map_fix_inv {A} (f : A -> A) l : map f l = l -> forall x, In x l -> f x = x.
+Proof.
+  induction l as [|a l IH]; intros H x Hx; [destruct Hx|]. cbn in H. injection H as H1 H2.
+  destruct Hx as [<-|Hx]; [exact H1|apply IH; assumption].
+Qed.
+
+Lemma nochange_apply h fs : h_impl h = true -> sf_change true h fs = false -> apply_fspec h true fs = h.
+Proof.
+  intros Hi Hc. rewrite apply_fspec_map. unfold sf_change, groups in Hc. cbn [concat] in Hc.
+  rewrite existsb_app in Hc. apply orb_false_iff in Hc. destruct Hc as [H1 H2].
+  assert (F1 : map (newf fs) (h_feats h) = h_feats h).
+  { apply map_fix_all. intros f Hf. apply newf_fix. destruct (feat_change true fs f) eqn:E; [|reflexivity].
+    assert (existsb (feat_change true fs) (h_feats h) = true) by (apply existsb_exists; exists f; split; assumption). congruence. }
+  assert (F2 : map (map (newf fs)) (h_subs h) = h_subs h).
+  { apply map_fix_all. intros g Hg. apply map_fix_all. intros f Hf. apply newf_fix.
+    destruct (feat_change true fs f) eqn:E; [|reflexivity].
+    assert (existsb (feat_change true fs) (concat (h_subs h)) = true).
+    { apply existsb_exists. exists f. split; [apply in_concat; exists g; split; assumption|exact E]. }
+    congruence. }
+  rewrite F1, F2. destruct h; cbn in *; subst; reflexivity.
+Qed.
+
+Lemma change_apply h fs : sf_change true h fs = true -> apply_fspec h true fs <> h.
+Proof.
+  intros Hc E. rewrite apply_fspec_map in E. unfold sf_change, groups in Hc. cbn [concat] in Hc.
+  apply existsb_exists in Hc. destruct Hc as (f & Hf & Hfc). apply (newf_moves fs f Hfc).
+  assert (E1 : map (newf fs) (h_feats h) = h_feats h) by (destruct h; cbn in *; congruence).
+  assert (E2 : map (map (newf fs)) (h_subs h) = h_subs h) by (destruct h; cbn in *; congruence).
+  apply in_app_iff in Hf. destruct Hf as [Hf|Hf]; [exact (map_fix_inv _ _ E1 f Hf)|].
+  apply in_concat in Hf. destruct Hf as (g & Hg & Hfg).
+  exact (map_fix_inv _ _ (map_fix_inv _ _ E2 g Hg) f Hfg).
+Qed.
+
+Lemma implement_deps_nodeps c k m : find_key k c = Some m -> y_deps m = [] -> implement_deps c k = c.
+Proof. intros Hf Hd. unfold implement_deps, targets. rewrite Hf, Hd. reflexivity. Qed.
+
+Section CounterOps.
+  Variables (c : ctx) (k : mkey) (fs : fspec) (m : ymod).
+  Hypothesis Hnd : NoDup (map key_of c).
+  Hypothesis Hfind : find_key k c = Some m.
+  Hypothesis Hdeps : y_deps m = [].             (* no augment / deviation statements in the module *)
+
+  Let upd := fun x => if beq_key k (key_of x)
+                      then mkymod (apply_fspec (y_mod x) true fs) (y_ns x) (y_imports x) (y_subs x) (y_deps x) else x.
+
+  Lemma upd_others x : In x c -> x <> m -> upd x = x.
+  Proof.
+    intros Hx Hne. unfold upd. destruct (beq_key k (key_of x)) eqn:E; [|reflexivity].
+    apply beq_key_eq in E. exfalso. apply Hne. apply find_key_some in Hfind. destruct Hfind as [Hm Hk].
+    apply (nodup_key_inj c); congruence.
+  Qed.
+
+  Lemma upd_m : upd m = mkymod (apply_fspec (y_mod m) true fs) (y_ns m) (y_imports m) (y_subs m) (y_deps m).
+  Proof. unfold upd. apply find_key_some in Hfind. destruct Hfind as [_ Hk]. rewrite Hk, beq_key_refl. reflexivity. Qed.
+
+  Lemma set_impl_op_shape cd ci c' n : set_impl_op cd ci c k fs = Ok (c', n) ->
+    c' = map upd c /\ n = si_events cd ci m fs.
+  Proof.
+    unfold set_impl_op, set_implemented. rewrite Hfind.
+    destruct (negb (fspec_ok (y_mod m) fs)); [discriminate|].
+    destruct (negb (y_impl m) && existsb (fun x => named (fst k) x && y_impl x) c); [discriminate|].
+    fold upd. cbv zeta.
+    assert (Hf2 : find_key k (map upd c) = Some (upd m)).
+    { apply find_key_nodup.
+      - rewrite map_map.
+        assert (Ek : map (fun x => key_of (upd x)) c = map key_of c)
+          by (apply map_ext; intros x; unfold upd; destruct (beq_key k (key_of x));
+              [unfold key_of, y_name, y_rev; cbn [y_mod]; rewrite apply_fspec_map|]; reflexivity).
+        rewrite Ek. exact Hnd.
+      - apply in_map. apply find_key_some in Hfind. apply Hfind.
+      - rewrite upd_m. apply find_key_some in Hfind. destruct Hfind as [_ Hk]. rewrite <- Hk.
+        unfold key_of, y_name, y_rev. cbn [y_mod]. rewrite apply_fspec_map. reflexivity. }
+    rewrite (implement_deps_nodeps (map upd c) k (upd m) Hf2) by (rewrite upd_m; exact Hdeps).
+    intros H. injection H as <- <-. split; [reflexivity|].
+    rewrite Nat.sub_diag. destruct ci; cbn; rewrite N.add_0_r; reflexivity.
+  Qed.
+
+  (* nothing counted: nothing changed *)
+  Lemma set_impl_zero_nochange c' : set_impl_op true true c k fs = Ok (c', 0) -> c' = c.
+  Proof.
+    intros H. destruct (set_impl_op_shape true true c' 0 H) as [-> Hn].
+    unfold si_events in Hn. destruct (y_impl m) eqn:Hi; [|discriminate].
+    destruct (sf_change true (y_mod m) fs) eqn:Hc; [discriminate|].
+    apply map_fix_all. intros x Hx.
+    destruct (mkey_eq_dec (key_of x) k) as [Ek|Nk].
+    - assert (x = m) as ->.
+      { apply find_key_some in Hfind. destruct Hfind as [Hm Hk]. apply (nodup_key_inj c); congruence. }
+      rewrite upd_m, (nochange_apply (y_mod m) fs Hi Hc). destruct m; reflexivity.
+    - apply upd_others; [exact Hx|]. intros ->. apply Nk. apply find_key_some in Hfind. apply Hfind.
+  Qed.
+
+  (* nothing changed: nothing counted *)
+  Lemma set_impl_nochange_zero c' n : set_impl_op true true c k fs = Ok (c', n) -> c' = c -> n = 0.
+  Proof.
+    intros H E. destruct (set_impl_op_shape true true c' n H) as [Hc' ->]. rewrite Hc' in E.
+    assert (Hm : In m c) by (apply find_key_some in Hfind; apply Hfind).
+    pose proof (map_fix_inv upd c E m Hm) as Hum. rewrite upd_m in Hum.
+    unfold si_events. destruct (y_impl m) eqn:Hi.
+    - destruct (sf_change true (y_mod m) fs) eqn:Hc; [|reflexivity].
+      exfalso. apply (change_apply (y_mod m) fs Hc). exact (f_equal y_mod Hum).
+    - exfalso. assert (Hi' : y_impl m = true).
+      { rewrite <- Hum. unfold y_impl. cbn [y_mod]. rewrite apply_fspec_map. reflexivity. }
+      congruence.
+  Qed.
+End CounterOps.
+
+(* every lys_set_implemented that changes the implemented set or the enabled features is counted at least once,
+   one that changes nothing is not counted; with the counter arithmetic: the value differs afterwards *)
+Theorem set_implemented_counted c k fs m c' n :
+  NoDup (map key_of c) -> find_key k c = Some m -> y_deps m = [] ->
+  set_impl_op true true c k fs = Ok (c', n) ->
+  (c' <> c -> 1 <= n) /\ (c' = c -> n = 0) /\ n <= 1 /\
+  (forall cnt, cnt < U16 -> c' <> c -> cc_after cnt n <> cnt).
+Proof.
+  intros Hnd Hf Hd H.
+  assert (Hle : n <= 1).
+  { destruct (set_impl_op_shape c k fs m Hnd Hf Hd true true c' n H) as [_ ->]. unfold si_events.
+    destruct (y_impl m); [destruct (sf_change true (y_mod m) fs)|]; lia. }
+  assert (H1 : c' <> c -> 1 <= n).
+  { intros Hne. destruct (N.eq_dec n 0) as [->|Hn]; [|lia]. exfalso. apply Hne.
+    apply (set_impl_zero_nochange c k fs m Hnd Hf Hd c' H). }
+  split; [exact H1|]. split; [apply (set_impl_nochange_zero c k fs m Hnd Hf Hd c' n H)|]. split; [exact Hle|].
+  intros cnt Hcnt Hne. apply cc_after_changes; [exact Hcnt|]. specialize (H1 Hne). unfold U16. lia.
+Qed.
+
+(* regression of the two seeded variants: a change that only disables features is not counted when the disable arm
+   does not set the change flag; making a module implemented is not counted when lys_implement does not count *)
+Definition cnt_m (impl e1 e2 : bool) : ymod :=
+  mkymod (mkhmod e_x None impl [mkfeat [102] e1; mkfeat [103] e2] []) (e_ns e_x) [] [] [].
+Lemma counter_seed_witnesses :
+  set_impl_op true true [cnt_m true true true] (e_x, None) (F_list [[102]]) = Ok ([cnt_m true true false], 1) /\
+  set_impl_op false true [cnt_m true true true] (e_x, None) (F_list [[102]]) = Ok ([cnt_m true true false], 0) /\
+  set_impl_op true true [cnt_m false false false] (e_x, None) F_keep = Ok ([cnt_m true false false], 1) /\
+  set_impl_op true false [cnt_m false false false] (e_x, None) F_keep = Ok ([cnt_m true false false], 0) /\
+  set_impl_op true true [cnt_m true true false] (e_x, None) (F_list [[102]]) = Ok ([cnt_m true true false], 0).
+Proof. repeat split; vm_compute; reflexivity. Qed.
